@@ -13,7 +13,7 @@
                         the precedence order of the standard, WITHOUT the modelled parsers.
     [vers.Check/ast]    the same through Check. *)
 From Coq Require Import ZArith List Bool String.
-From Low Require Import Lib.Val Lib.Decimal_xpk Model.Semver Model.Vers Spec.VersSpec.
+From Low Require Import Lib.Val Lib.Decimal_xpk Model.Semver Model.Vers Spec.VersSpec Spec.VersPrint.
 Import ListNotations.
 Open Scope string_scope.
 Open Scope Z_scope.
@@ -78,22 +78,6 @@ Definition dec_version (v : val) : option Version :=
   | _ => None
   end.
 
-(** the letter x anywhere in a comparator's version is the wildcard of the library's range syntax: versions whose
-    identifiers contain it cannot be written in a range (outside the domain of the /ast operations) *)
-Definition no_x (v : Version) : bool :=
-  forallb (fun p => negb (contains_byte 120 (pr_str p))) (v_pre v) &&
-  forallb (fun b => negb (contains_byte 120 b)) (v_build v).
-
-Definition op_spellings (c : comparator) : list (list Z) :=
-  match c with
-  | CEQ => [[]; [61]; [61; 61]]
-  | CNE => [[33]; [33; 61]]
-  | CGT => [[62]]
-  | CGE => [[62; 61]]
-  | CLT => [[60]]
-  | CLE => [[60; 61]]
-  end.
-
 Definition dec_comparator (k : Z) : option comparator :=
   if k =? 0 then Some CEQ else if k =? 1 then Some CNE else if k =? 2 then Some CGT
   else if k =? 3 then Some CGE else if k =? 4 then Some CLT else if k =? 5 then Some CLE else None.
@@ -125,19 +109,6 @@ Definition dec_ast (a : list val) : option (Version * list (list (comparator * l
       end
   | _ => None
   end.
-
-(** Version.String() *)
-Definition ident_string (p : PRVersion) : list Z := if pr_isnum p then dec_nonneg (pr_num p) else pr_str p.
-Definition version_string (v : Version) : list Z :=
-  dec_nonneg (v_major v) ++ [46] ++ dec_nonneg (v_minor v) ++ [46] ++ dec_nonneg (v_patch v) ++
-  (match v_pre v with [] => [] | l => [45] ++ Semver.join [46] (map ident_string l) end) ++
-  (match v_build v with [] => [] | l => [43] ++ Semver.join [46] l end).
-
-Definition group_string (g : list (comparator * list Z * Version)) : list Z :=
-  Semver.join [32] (map (fun x : comparator * list Z * Version => let '(_, s, w) := x in (s ++ version_string w)%list) g).
-
-Definition strip (gs : list (list (comparator * list Z * Version))) : groups :=
-  map (map (fun x : comparator * list Z * Version => let '(c, _, w) := x in (c, w))) gs.
 
 Definition ops_X01 : list opdef := [
   {| op_name := "vers.IsCompatible";
